@@ -71,6 +71,14 @@ def programs(tier: str):
         for combo in itertools.combinations_with_replacement(range(len(beh3)), 3):
             for ending, cancels in bodies:
                 yield {"block": {"kind": "ascope", "supply": [], "disp": [dict(beh3[i]) for i in combo], "pause": bool(cancels), "ending": ending}, "cancels": cancels}
+    # two events in one loop iteration (two disposables finishing a step, or one of them and the
+    # cancellation of the body)
+    beh2 = [b for b in _behaviours(False) if b["yields"] == "none"]
+    for combo in itertools.combinations_with_replacement(range(len(beh2)), 2):
+        if not any(beh2[i]["enter"].startswith("susp") or beh2[i]["exit"].startswith("susp") for i in combo):
+            continue
+        for ending, cancels in bodies:
+            yield {"block": {"kind": "ascope", "supply": [], "disp": [dict(beh2[i]) for i in combo], "pause": bool(cancels), "ending": ending}, "cancels": cancels, "batch": 2}
     # states yielded as a non-sequence iterable (generator, dict view)
     for y in ("gen", "values", "falsy"):
         for other in (None, {"enter": "ok", "exit": "ok", "yields": "one"}):
@@ -154,7 +162,7 @@ def _reaches(caught, target) -> bool:
 
 
 def execute(program, ch: Chooser) -> Result:  # noqa: C901, PLR0912, PLR0915
-    r = Run(program, ch, cancels=program["cancels"])
+    r = Run(program, ch, cancels=program["cancels"], batch=program.get("batch", 1))
     viols: list[dict] = []
     try:
         r.execute()
